@@ -18,6 +18,8 @@ const POISON_FREED: u8 = 0xFA;
 
 #[derive(Clone, Copy)]
 struct Rec {
+    /// bytes of guard zone in front of the data (>= gsz(align))
+    pre: usize,
     data: usize,
     size: usize,
     align: usize,
@@ -49,7 +51,7 @@ struct State {
 
 thread_local! {
     static ST: State = const { State {
-        recs: UnsafeCell::new([Rec { data: 0, size: 0, align: 0, state: 0 }; SLOTS]),
+        recs: UnsafeCell::new([Rec { pre: 0, data: 0, size: 0, align: 0, state: 0 }; SLOTS]),
         enabled: Cell::new(false),
         realloc_moves: Cell::new(true),
         live: Cell::new(0),
@@ -102,7 +104,7 @@ fn gsz(align: usize) -> usize {
 
 unsafe fn guards_ok(r: &Rec) -> bool {
     let g = gsz(r.align);
-    let pre = std::slice::from_raw_parts((r.data - g) as *const u8, g);
+    let pre = std::slice::from_raw_parts((r.data - r.pre) as *const u8, r.pre);
     let post = std::slice::from_raw_parts((r.data + r.size) as *const u8, g);
     pre.iter().all(|x| *x == GUARD_BYTE) && post.iter().all(|x| *x == GUARD_BYTE)
 }
@@ -121,15 +123,17 @@ unsafe fn tracked_alloc(layout: Layout) -> *mut u8 {
         return std::ptr::null_mut();
     }
     let g = gsz(align);
-    let total = size + 2 * g;
+    // an allocator owes the caller exactly the alignment that was asked for: hand out a pointer
+    // that is aligned to `align` and to nothing larger, so that under-aligned requests show
+    let total = size + 2 * g + align;
     let base = System.alloc(Layout::from_size_align_unchecked(total, g));
     if base.is_null() {
         return base;
     }
-    std::ptr::write_bytes(base, GUARD_BYTE, g);
-    std::ptr::write_bytes(base.add(g), POISON_NEW, size);
-    std::ptr::write_bytes(base.add(g + size), GUARD_BYTE, g);
-    let data = base as usize + g;
+    let pre = if (base as usize + g) % (2 * align) == 0 { g + align } else { g };
+    std::ptr::write_bytes(base, GUARD_BYTE, total);
+    std::ptr::write_bytes(base.add(pre), POISON_NEW, size);
+    let data = base as usize + pre;
     ST.with(|s| {
         let recs = &mut *s.recs.get();
         // find a free slot, else recycle the oldest quarantined one
@@ -141,7 +145,7 @@ unsafe fn tracked_alloc(layout: Layout) -> *mut u8 {
             }
         }
         if let Some(i) = idx {
-            recs[i] = Rec { data, size, align, state: 1 };
+            recs[i] = Rec { pre, data, size, align, state: 1 };
             if i + 1 > s.used.get() {
                 s.used.set(i + 1);
             }
@@ -157,7 +161,7 @@ unsafe fn tracked_alloc(layout: Layout) -> *mut u8 {
 
 unsafe fn release_quarantined(r: &mut Rec) {
     let g = gsz(r.align);
-    System.dealloc((r.data - g) as *mut u8, Layout::from_size_align_unchecked(r.size + 2 * g, g));
+    System.dealloc((r.data - r.pre) as *mut u8, Layout::from_size_align_unchecked(r.size + 2 * g + r.align, g));
     r.state = 0;
 }
 
